@@ -83,10 +83,12 @@ def search(ctx, focus=(), deep=1):
 
 
 def check(ctx):
-    ctx.rule = ('proof: _build_packet returns a +mark/-space pair list summing to the period, for every class-A protocol (kernel obligations regenerated from /repo) and '
+    ctx.rule = ('proof: C03_wrapper for the protocols whose traced encode() meets the kernel-checked obligation c03OK: for every parameter assignment and repeat_count 0,1,2 every emitted frame '
+                '(packet or hand-assembled repeat frame) is well formed and sums to the period, frame counts grow linearly, carrier reported; '
+                '_build_packet returns a +mark/-space pair list summing to the period, for every class-A protocol (kernel obligations regenerated from /repo) and '
                 'every field assignment; correspondence: real _build_packet vs model; search: ALL real encoders x {all-max, all-min, random, known witnesses} x repeat_count 0..4: '
                 'non-empty, integer, non-zero, mark first, alternating, space last, period sum, constant positive frame growth, carrier frequency. distinct = (protocol, params, repeat_count)')
-    tabs, ok = engine_prove.prove(ctx, MODULES)
+    tabs, ok = engine_prove.prove(ctx, MODULES, with_wrappers=True, wrap_kinds=('c03',))
     import fingerprint
     changed_p, changed_e = fingerprint.changed()
     focus = engine_prove.failed_protocols(ctx) | changed_p
@@ -94,6 +96,8 @@ def check(ctx):
     r = vlib.rng('c03corr')
     try:
         ec.standard_correspondence(ctx, r, per_proto=2 if not ctx.thorough else 6, focus=focus)
+        from props import wrap_common
+        wrap_common.correspondence(ctx, vlib.rng('c03wrap'), tabs, getattr(ctx, 'winfo', {}), per_proto=3 if not ctx.thorough else 12, focus=focus)
     except Exception:
         import traceback
         ctx.oblige('correspondence_driver', False, traceback.format_exc()[-500:])
